@@ -6,7 +6,7 @@ open Scenic.Expr
 /-- tables of src/scenic/core/distributions.py (makeOperatorHandler, OperatorDistribution.sampleGiven) and
     src/scenic/core/vectors.py (vectorOperator decorators) -/
 def exprTables : Tables :=
-  { simp := [⟨.add, false, 0⟩, ⟨.add, true, 0⟩, ⟨.sub, false, 0⟩, ⟨.sub, true, 0⟩, ⟨.mul, false, 1⟩, ⟨.mul, true, 1⟩, ⟨.truediv, false, 1⟩, ⟨.pow, false, 1⟩],
+  { simp := [⟨.add, false, 0⟩, ⟨.add, true, 0⟩, ⟨.sub, false, 0⟩, ⟨.mul, false, 1⟩, ⟨.mul, true, 1⟩, ⟨.truediv, false, 1⟩, ⟨.pow, false, 1⟩],
     vecOps := [(.add, false, true), (.add, true, true), (.sub, false, true), (.sub, true, false), (.mul, false, false), (.truediv, false, false)],
     pythonDispatch := false,
     vecHandlerAcceptsSeq := false }
